@@ -1,6 +1,7 @@
 import LenaModel.Lemmas.C13Pass
 import LenaModel.Lemmas.C13WF
 import LenaModel.Lemmas.C13Frame
+import LenaModel.Lemmas.C13Reuse
 /-! # C13 — static context seen by an element depends only on what encloses and precedes it
 
 Property (properties.jsonl): *The static context an element receives at initialisation is the fold, in
@@ -989,6 +990,27 @@ example : tokAt (.split [.seq .sequence [.leaf .store], .seq .sequence [.leaf .s
 example : leL (Val.empty 2) [some (.leaf (.int 1)), none] := by simp [leL, leO, Val.empty, List.replicate]
 -- hypothesis of `delivered_wf` / `exported_wf`
 example : WFD 2 (Val.empty 2 : Ctx) := wfd_empty 2
+
+/-- `Sequence(SetContext("b", "{{a}}_f"), StoreContext(), Write("o_{{b}}"))`, keys `a = 0`, `b = 1` -/
+private def ex3 : Tree :=
+  .seq .sequence [.leaf (.set 1 [] (.tpl { head := "", parts := [([0], "_f")] })), .leaf .store,
+    .leaf (.write { head := "o_", parts := [([1], "")] })]
+-- hypothesis of `delivery_memoryless` / `reuse_memoryless` (`Lemmas/C13Reuse.lean`): the delivery of `{a: 6}` reaches
+-- every element of `ex3` (and `{}`, or a context without `a`, does not)
+example : covers 2 ex3 [some (.leaf (.int 6)), none] = true := rfl
+example : covers 2 ex3 (Val.empty 2) = false := rfl
+example : covers 2 ex3 [none, some (.leaf (.int 6))] = false := rfl
+-- … and the conclusion on the instance: after `{a: 5}` and then `{a: 6}` the store holds `{a: 6, b: "6_f"}`, the
+-- Write derived `o_6_f`; the protocol itself computes the state of a program delivered `{a: 6}` alone
+example : (setCtx 2 (deliverAll 2 (build 2 ex3) [[some (.leaf (.int 5)), none]]) [some (.leaf (.int 6)), none]).1 =
+    final 2 ex3 [[some (.leaf (.int 6)), none]] := rfl
+example : (final 2 ex3 [[some (.leaf (.int 6)), none]]).at? [1] =
+    some (.store [some (.leaf (.int 6)), some (.leaf (.str "6_f"))]) := rfl
+example : (final 2 ex3 [[some (.leaf (.int 6)), none]]).at? [2] =
+    some (.write { head := "o_", parts := [([1], "")] } (some (.str "o_6_f"))) := rfl
+-- without `covers` the conclusion fails: `{}` after `{a: 5}` is skipped by every element, which keep `{a: 5, …}`
+example : (setCtx 2 (deliverAll 2 (build 2 ex3) [[some (.leaf (.int 5)), none]]) (Val.empty 2)).1.at? [1] =
+    some (.store [some (.leaf (.int 5)), some (.leaf (.str "5_f"))]) := rfl
 
 end examples
 
